@@ -46,6 +46,13 @@ def build_pool(rng):
     km2 = M.envelope(M.md("key_mgr", 1, {"pkg_mgr": M.delegation((3,), 1)}), (2,), mode="raw")
     add("tA", tA); add("tB", tB); add("tC", tC); add("km1", km1); add("km2", km2)
     add("junk_env", {"signatures": {"junk": 5, PUBHEX[0]: E.raw_sig(0, P)}, "signed": P})
+    # numbers the checker accepts in more than one spelling (1.0, True): an in-place "normalisation" changes the signed bytes
+    tF = M.envelope(M.md("root", 5.0, {"key_mgr": {"pubkeys": [PUBHEX[1]], "threshold": 1.0}, "root": {"pubkeys": [PUBHEX[0]], "threshold": True}}), (0,))
+    add("tF", tF)
+    # same key, same signature value, same payload, other hashed headers
+    g = E.gpg_sig(0, P)
+    hdr2 = bytearray(bytes.fromhex(g["other_headers"])); hdr2[7] ^= 1
+    add("env_gpg_P_hdr", {"signatures": {PUBHEX[0]: dict(g, other_headers=bytes(hdr2).hex()), PUBHEX[1]: E.gpg_sig(1, P)}, "signed": P})
     return pool, names
 
 
@@ -53,18 +60,19 @@ def call_universe(names, rng):
     p = lambda n: {"p": names[n]}
     w = lambda v: {"w": wire.enc(v)}
     calls = []
-    for env in ("env_raw_P", "env_raw_P2", "env_raw_P3", "env_gpg_P", "env_gpg_P2", "forged_raw", "forged_gpg", "junk_env"):
+    for env in ("env_raw_P", "env_raw_P2", "env_raw_P3", "env_gpg_P", "env_gpg_P2", "forged_raw", "forged_gpg", "junk_env", "env_gpg_P_hdr"):
         for K in ("K01", "K0", "K23"):
             for t in (1, 2):
                 for g in (False, True):
                     calls.append(["verify_signable", [p(env), p(K), w(t), w(g)]])
     for T, U in (("r1", "r2"), ("r1", "r2_forged"), ("r1", "r2_selfapp"), ("r2", "r3"), ("r1", "r3"), ("r2", "r2"), ("r2", "r1"), ("r1", "km1")):
         calls.append(["verify_root", [p(T), p(U)]])
-    for T in ("tA", "tB", "tC", "r1"):
+    for T in ("tA", "tB", "tC", "r1", "tF"):
         for U in ("km1", "km2"):
             for nm in ("key_mgr", "pkg_mgr"):
                 calls.append(["verify_delegation", [w(nm), p(U), p(T), w(False)]])
-    for x in ("P", "P2", "P3", "r1", "tA", "km1", "K01", "junk_env"):
+    calls.append(["verify_signable", [p("tF"), p("K0"), w(1), w(True)]])
+    for x in ("P", "P2", "P3", "r1", "tA", "tF", "km1", "K01", "junk_env"):
         calls.append(["canonserialize", [p(x)]])
         calls.append(["checkformat_delegating_metadata", [p(x)]])
         calls.append(["is_signable", [p(x)]])
